@@ -181,6 +181,19 @@ class SimCluster(object):
         p = r.parsed
         if p is None or p["body"] is None:
             return
+        m = self.find_mode(r)
+        if m is not None and m.get("delay"):
+            # a slow broker: the answer (and everything behind it on this connection) is held back for a while
+            if m.get("budget", -1) > 0:
+                m["budget"] -= 1
+            r.parked = True
+            r.delayed = True
+
+            def release():
+                r.parked = False
+            release.__qualname__ = "SimCluster.unpark"
+            self.clock.callLater(m["delay"], release)
+            return
         if p["api_key"] == rk.PRODUCE and p["body"]["acks"] == 0:
             # no answer will ever be sent: process as soon as it reaches the head of the queue
             self._drain_noreply(conn)
@@ -250,6 +263,8 @@ class SimCluster(object):
             return None
         for m in self.modes:
             if m.get("budget", 1) == 0:
+                continue
+            if m.get("delay") and getattr(r, "delayed", False):
                 continue
             if m.get("api") is not None and m["api"] != r.parsed["api_key"]:
                 continue
